@@ -59,7 +59,7 @@ def run_checks(patch):
     results = {}
     try:
         def one(p):
-            rc, out = sh([os.path.join(VERIF, "check"), p, "--no-write"], cwd=VERIF)
+            rc, out = sh([os.path.join(VERIF, "check"), p, "--no-write", "--no-controls"], cwd=VERIF)
             lines = [l for l in out.splitlines() if "VIOLATION" in l or "ANALYSIS-ERROR" in l or " — " in l]
             return p, rc, lines[:6]
         with concurrent.futures.ThreadPoolExecutor(max_workers=12) as ex:
@@ -98,9 +98,13 @@ def main():
         return
     sid, prop, wt = sys.argv[1:4]
     alt = "--alt" in sys.argv
+    k = sys.argv[sys.argv.index("--k") + 1] if "--k" in sys.argv else None
     d = os.path.join(VERIF, "seeded", sid)
     os.makedirs(d, exist_ok=True)
-    if alt:
+    if k:
+        shutil.copy(os.path.join(wt, f"change_{k}.diff"), os.path.join(d, "patch.diff"))
+        demo_src = f"demo_{k}.py"
+    elif alt:
         shutil.copy(os.path.join(wt, "alt.diff"), os.path.join(d, "patch.diff"))
         demo_src = "demo_alt.py"
     else:
